@@ -6,6 +6,9 @@ import multiprocessing as mp
 from pyvc.runner import _worker
 from pyvc.load import build
 
+TMO = int(os.environ.get('TMO', '10000'))
+
+
 def main():
     w, reg, stubs = build()
     args = [a for a in sys.argv[1:] if not a.startswith('-')]
@@ -16,9 +19,9 @@ def main():
         for q in quals:
             c = reg.get(q)
             if c is not None and c.ncases:
-                jobs.extend((q, 10000, False, i) for i in range(c.ncases))
+                jobs.extend((q, TMO, False, i) for i in range(c.ncases))
             else:
-                jobs.append((q, 10000, False))
+                jobs.append((q, TMO, False))
         res = pool.map(_worker, jobs, chunksize=1)
     for r in res:
         print('== %s: %s paths=%d obligations=%d proved=%d refuted=%d unknown=%d wall=%.2fs feas=%d(%.2fs)' % (
@@ -31,5 +34,8 @@ def main():
                 print('   %-8s %6.2fs %s %s' % (o.status, o.seconds, o.name, o.reason))
         for name, cm, txt in r.counterexamples:
             print('   CEX', name, str(txt)[:600])
+            if '-c' in sys.argv:
+                import json
+                print('      ', json.dumps(cm, default=str)[:1500])
     print('total wall %.1fs' % (time.time() - t0))
 main()
